@@ -26,7 +26,7 @@ CHECKS = {
              "from the current source, translated to SMT-LIB regular expressions and compared with the Aspartix line grammar for every "
              "ASCII line up to 12 (quick) / 18 (thorough) characters. A satisfiable query is a concrete line, replayed through the real reader.",
         note="Outside: non-ASCII input, the control flow around the patterns (argument after attack, undeclared argument), the ICCMA'23 "
-             "reader (BufReader/str::parse are out of CBMC's reach at useful buffer sizes; see DESIGN.md). Trusted: z3's string theory, the "
+             "reader (BufReader::lines / split_whitespace / str::parse: CBMC does not finish at useful buffer sizes; see DESIGN.md). Trusted: z3's string theory, the "
              "hand-written translation of the regex subset.",
         design="DESIGN.md section 4 (C13)"),
 }
@@ -51,7 +51,55 @@ CHECKS["C05"] = dict(
          "the OS and cannot be compiled to CBMC. Trusted: Kani 0.68/CBMC 6.11, the stubs listed in the evidence.",
     design="DESIGN.md section 4 (C05)")
 
+_STATIC_NOTE = ("Frameworks and queries are concrete per harness (2 arguments in quick, 2-3 in thorough; plain / duplicated-attack / sparse-id "
+                "presentations); CBMC decides over every model the SAT backend may return at every call (demonic oracle). OUTSIDE the claim: the iterative solvers "
+                "PR (SE/DS), SST, STG, ID (CBMC does not finish on them even for a<->b: measured 57 GB / 19 min), frameworks with >3 arguments, the real backends. "
+                "Trusted: Kani 0.68/CBMC 6.11, VecMap for HashMap under cfg(kani), three stubs (format, Backtrace::capture, anyhow::Error drop), the reference "
+                "semantics (cross-validated natively on all frameworks with <=3 arguments).")
+_STATIC = {
+    "C01": "single-extension answers of the stable and grounded (GR, SE-CO) solvers are extensions given in the caller's own arguments; 'no extension' only when none exists",
+    "C02": "credulous statuses of the stable, complete (DC-CO, DC-PR; aux_var / exp / hybrid) and grounded solvers equal the reference semantics",
+    "C03": "skeptical statuses of the stable and grounded (GR, DS-CO) solvers equal the reference semantics, including 'every argument accepted' when no stable extension exists",
+    "C04": "certificates of the stable / complete / grounded solvers appear exactly when promised, are extensions, contain / omit the queried argument and consist of the framework's own argument objects",
+    "C07": "queries over every ordered pair of arguments are answered as disjunctions, with and without certificate (complete, stable, grounded solvers; cross-component case at 3 arguments)",
+    "C16": "clause (a) only: no SAT call of the stable / complete solvers carries an assumption on a variable above n_vars(), i.e. the DIMACS header written by BufferedSatSolver covers the instance",
+    "C17": "when the k-th SAT call (k symbolic) of a stable / complete query returns Unknown, the query never returns a status or an extension (it aborts by the panic of unwrap_model)",
+    "C18": "the stable and complete solvers make at most two SAT calls per solver instance (= per connected component)",
+}
+for _p, _t in _STATIC.items():
+    CHECKS[_p] = dict(
+        category="model_checking",
+        technique="Kani/CBMC bounded model checking of the real solver code with a demonic SAT oracle (symbolic model choices), concrete small frameworks",
+        text=_t + ". Each harness is one CBMC query over the compiled MIR of the working tree; a failed assertion is reported only after native reproduction.",
+        note=_STATIC_NOTE + (" For C16 the reply parser and the 'cannot hang' clause, for C17 the external reply kinds and the exit status, for C18 the PR/ID/SST/STG bounds are outside." if _p in ("C16", "C17", "C18") else ""),
+        design="DESIGN.md sections 3.3, 3.4, 4")
+CHECKS["C08"] = dict(
+    category="model_checking",
+    technique="Kani/CBMC bounded model checking of the dynamic complete / stable solvers on concrete update-query histories with a demonic SAT oracle",
+    text="Concrete histories over two labels (building, cached and uncached queries with and without certificate, attack removal, argument removal and "
+         "re-insertion, a framework without stable extension) are run on the real dynamic solvers next to a set model; CBMC decides over every model the "
+         "backend may return that each answer and certificate is the one of the current framework.",
+    note="Histories are the handful listed in kani/src/h_dynamic.rs. OUTSIDE: DynamicPreferredSemanticsSolver and the two assumptions-on-attacks solvers "
+         "(beyond CBMC's reach), longer histories, more labels. Same trusted base as the static harnesses.",
+    design="DESIGN.md section 4 (C08/C09)")
+CHECKS["C09"] = dict(
+    category="model_checking",
+    technique="Kani/CBMC bounded model checking of the dynamic complete / stable solvers on concrete histories with redundant and invalid updates, demonic SAT oracle",
+    text="As C08 with redundant (existing argument / attack) and invalid (unknown argument / attack) updates at several positions: the Result of each update "
+         "call must be an error exactly for the invalid ones, and all later answers must be those of the framework without the rejected or redundant operation.",
+    note="Same bounds and exclusions as C08.",
+    design="DESIGN.md section 4 (C08/C09)")
+CHECKS["C12"] = dict(
+    category="model_checking",
+    technique="Kani/CBMC bounded model checking of AAFramework<usize> under a symbolic operation sequence against a set model",
+    text="K symbolic operations (kind and both operands symbolic over two labels) on the real store; every Result and, at the end, every observable is "
+         "compared with a plain set model; K = 1, 2 in the quick tier.",
+    note="OUTSIDE: longer histories, more labels, String labels. VecMap stands for HashMap under cfg(kani); counterexamples are confirmed natively with the real HashMap.",
+    design="DESIGN.md section 4 (C12)")
+
 NOT_APPLICABLE = {
+    "C06": "beyond what C02-C04/C07 already assert (one reference for every encoder, with and without certificate) the property is about the two real backends (FFI / child process: not encodable) and about repeated / reordered queries on one solver object, which doubles harnesses that already need 8 GB and 5 minutes per query pair; the iterative solvers are out of CBMC's reach altogether (DESIGN.md sections 2, 5)",
+    "C14": "the writers format through core::fmt into a dyn Write: with formatting stubbed nothing is left to check, unstubbed CBMC does not finish; reading back needs the regex-based reader, which cannot be compiled to CBMC",
     "C11": "needs frameworks of 20-300 arguments; symbolic execution of the solvers reaches <=3 arguments, where the property is a corollary of C01-C03",
     "C15": "the behaviour specified is that of CaDiCaL (C++ behind FFI) and of an external process; neither can be compiled to the solver's input",
 }
